@@ -14,6 +14,9 @@ pub struct Msgs {
     pub initial: Vec<Value>,
     /// shrinking operations applied through the SendGuard before send()
     pub post_ops: Vec<Vec<(Vec<u16>, crate::glue::Op)>>,
+    /// messages that are written into the send guard as raw bytes (as_mut_bytes + assume_init) instead
+    /// of being emplaced: the full image (the wire image in `images` is its first size() bytes)
+    pub raw: Vec<Option<Vec<u8>>>,
     pub images: Vec<Image>,
     /// absolute start of each message in the stream (+ total length at the end)
     pub starts: Vec<usize>,
@@ -134,6 +137,7 @@ pub fn gen_msgs_ext(ty: &Ty, t: &mut Tape, max: usize, limit: usize, shrink: boo
     let mut post_ops = vec![];
     let mut values = vec![];
     let mut images = vec![];
+    let mut raw = vec![];
     let mut starts = vec![0];
     let mut largest = model::min_size(ty);
     let mut has_padding = false;
@@ -146,6 +150,40 @@ pub fn gen_msgs_ext(ty: &Ty, t: &mut Tape, max: usize, limit: usize, shrink: boo
         }
         if model::encode(ty, &v, size, 0, &mut Canonical).is_err() {
             continue;
+        }
+        if shrink && t.chance(1, 4) {
+            // raw route: a reference-encoded image, in a third of the cases with non-canonical FlexVec
+            // packing (0-terminated chains, slack strides), is copied into the guard's buffer
+            let a = model::align(ty);
+            let mut style = super::images::TapeStyle::from_tape(t);
+            let slack_room = if style.canonical() { 0 } else { 4 * a * (1 + t.below(4)) };
+            let fill = t.u8();
+            let n = size + slack_room;
+            if n <= limit {
+                if let Ok(img) = model::encode(ty, &v, n, fill, &mut style) {
+                    if let Ok(d) = model::decode(ty, &img.bytes, 0) {
+                        if d.value == v {
+                            let wire = if ty.is_sized() { model::size(ty) } else { model::round_up(d.extent, a).max(model::min_size(ty)) };
+                            if wire % a != 0 || d.extent % a != 0 {
+                                has_padding = true;
+                            }
+                            largest = largest.max(n);
+                            starts.push(starts.last().unwrap() + wire);
+                            initial.push(v.clone());
+                            post_ops.push(vec![]);
+                            values.push(v);
+                            raw.push(Some(img.bytes.clone()));
+                            images.push(Image {
+                                bytes: img.bytes[..wire].to_vec(),
+                                mask: img.mask[..wire].to_vec(),
+                                fields: img.fields.iter().filter(|f| f.off + f.size <= wire).cloned().collect(),
+                                ..img
+                            });
+                            continue;
+                        }
+                    }
+                }
+            }
         }
         let (ops, fin) = if shrink && t.chance(1, 3) { gen_shrink_ops(ty, &v, t) } else { (vec![], v.clone()) };
         // provisional framing from the canonical size of the final value (exact when there are no post-ops)
@@ -160,10 +198,12 @@ pub fn gen_msgs_ext(ty: &Ty, t: &mut Tape, max: usize, limit: usize, shrink: boo
         post_ops.push(ops);
         values.push(fin);
         images.push(img);
+        raw.push(None);
     }
     Msgs {
         initial,
         post_ops,
+        raw,
         values,
         images,
         starts,
@@ -241,9 +281,11 @@ impl Msgs {
     /// Install the post-operations for the send drivers of this thread.
     pub fn install_post_ops(&self) {
         crate::io_glue::POST_OPS.with(|p| *p.borrow_mut() = self.post_ops.clone());
+        crate::io_glue::RAW_IMAGES.with(|p| *p.borrow_mut() = self.raw.clone());
     }
     pub fn clear_post_ops() {
         crate::io_glue::POST_OPS.with(|p| p.borrow_mut().clear());
+        crate::io_glue::RAW_IMAGES.with(|p| p.borrow_mut().clear());
     }
     /// A clean byte stream of the messages (padding zero).
     pub fn stream(&self) -> Vec<u8> {
